@@ -440,3 +440,17 @@ Lemma restore_nested : forall (w : world) (b1 b2 b3 : list op) (c c1 : ctx),
   (last_exn (with_block b2 w1) w1 = None /\ settings_of (w_st (run (with_block b2 w1) w1)) = settings_of (w_st w1)) /\
   (last_exn (with_block body w) w = None /\ settings_of (w_st (run (with_block body w) w)) = settings_of (w_st w)).
 Proof. intros. split; eapply restore_full; eauto. Qed.
+
+(* everything but the expressions created inside the block *)
+Lemma settings_builtins_eq : forall a b,
+  settings_of a = settings_of b -> s_builtins a = s_builtins b -> set_s_users [] a = set_s_users [] b.
+Proof. intros a b H B. destruct a, b. unfold settings_of in H. simpl in *. inversion H. subst. reflexivity. Qed.
+
+Lemma restore_whole_state : forall (w : world) (body : list op) (c : ctx),
+  gen_save (w_st w) = COk c -> builtins_synced (w_st w) ->
+  last_exn (with_block body w) w = None /\
+  set_s_users [] (w_st (run (with_block body w) w)) = set_s_users [] (w_st w).
+Proof.
+  intros w body c H Sy. destruct (restore_full w body c H) as [A B]. split; [exact A|].
+  apply settings_builtins_eq; [exact B|]. apply (with_block_restores_builtins w body c H Sy).
+Qed.
